@@ -76,7 +76,7 @@ MODELS: Dict[str, Dict[str, Any]] = {
     "connector-3x2-T2": dict(fam="connector", quick=False,
                              ctor="Connector(G.connector.UniformRandomGenerator(3, 2), time_limit=2)"),
     "cvrp-4": dict(fam="cvrp"),
-    "lbf-5-fov1-T2": dict(fam="lbf", quick=False),
+    "lbf-5-fov1-T2": dict(fam="lbf"),  # the only environment that truncates (LAST with discount 1): quick tier too
     "maze-5x5-T2": dict(fam="maze", ctor="Maze(G.maze.RandomGenerator(5, 5), time_limit=2)"),
     "mmst-12-T2": dict(fam="mmst", quick=False,
                        ctor="MMST(G.mmst.SplitRandomGenerator(12, 18, 4, 2, 3, 2), time_limit=2)"),
